@@ -1,18 +1,36 @@
-(* Executable entry point for the correspondence harness: AST -> emitted Python text. *)
+(* Executable entry points for the correspondence harness (C11, C12):
+     run_compile_text tbl source   source text -> emitted Python text | the kind of rejection
+     run_compile_ast  tbl program  AST -> the same (used to shrink and for programs given as ASTs)
+   The Unicode database is supplied per case as the finite list `tbl` of the non-ASCII code points
+   of the case for which str.isprintable is true (as in RunPyRepr.v). *)
 From Coq Require Import String.
 From Coq Require Import List Arith Bool NArith.
 Import ListNotations.
-From YP Require Import Base.Str Lang.Ast Comp.IR Comp.CompileBody Comp.CompileClause Comp.Emit.
+From YP Require Import Base.Str Lang.Ast Lang.Front Comp.IR Comp.CompileBody Comp.CompileClause Comp.Emit
+  Comp.PyRepr Comp.Limits Comp.CompileText.
 Local Open Scope string_scope.
 Local Open Scope list_scope.
 
-(* temporary repr for strings without quotes, backslashes, control or non-ASCII characters;
-   RunCompile2 uses the full model Comp/PyRepr.v *)
-Definition repr_simple (s : str) : str := 39%N :: flat_map (fun c => if N.eqb c 92 then [92%N; 92%N] else [c]) s ++ [39%N].
+Definition table_printable (tbl : list N) (c : N) : bool := existsb (N.eqb c) tbl.
 
-Definition run_compile_with (repr : str -> str) (p : program) : obs :=
-  match compile_program p with
-  | Some ir => otag "text" [OS (emit_program repr ir)]
-  | None => otag "stuck" []
+Definition cresult_obs (r : cresult) : obs :=
+  match r with
+  | CText t => otag "text" [OS t]
+  | CRejectFront => otag "reject-front" []
+  | CRejectNumeral => otag "reject-numeral" []
+  | CTooLarge => otag "too-large" []
   end.
-Definition run_compile (p : program) : obs := run_compile_with repr_simple p.
+
+Definition run_compile_text (tbl : list N) (s : str) : obs := cresult_obs (compile_text (table_printable tbl) s).
+Definition run_compile_ast (tbl : list N) (p : program) : obs := cresult_obs (compile_ast (table_printable tbl) p).
+
+(* the measures that decide "too large", for the boundary cases of the check *)
+Definition run_measures (s : str) : obs :=
+  match front s with
+  | None => otag "reject-front" []
+  | Some p =>
+      match compile_program p with
+      | None => otag "stuck" []
+      | Some ir => otag "measures" [OL (map (fun f => OL [onat (func_fdepth f); onat (func_bdepth f)]) ir); obool (ir_nums_ok ir)]
+      end
+  end.
